@@ -64,7 +64,7 @@ def build(case, wrap_step=False):
     de, I = lc._imports()
     f, ex, kappa, jac = problem(case["problem"])
     t0, tf = case["span"]
-    dtype = np.float64
+    dtype = lc.DT[case.get("dtype", "float64")]
     amp = case.get("amp", 1.0)          # linear problems only: the solution scales with the initial state
     y0 = np.asarray(ex(t0), dtype=dtype) * dtype(amp)
     rhs = de.DiffRHS(f)
@@ -139,7 +139,8 @@ def accuracy_case(case):
     err = max(float(np.max(np.abs(Y[k] - ex(T[k])))) / (at + rt * float(np.max(np.abs(ex(T[k]))))) for k in range(len(T))) * case["tol"]     # |y| = size of the state (max norm)
     err = err / 2.0 if "rtol" not in case else err       # (rtol = atol = tol: atol + rtol|y| = tol (1 + |y|))
     C = C_M.get(name, C_M["default"])
-    bound = C * case["tol"] * kappa(t0, tf) * (1.0 if "rtol" in case else 0.5) + 1e3 * 2.2e-16 * len(T) * case["tol"] / min(at, case["tol"])
+    eps_w = float(np.finfo(lc.DT[case.get("dtype", "float64")]).eps)
+    bound = C * case["tol"] * kappa(t0, tf) * (1.0 if "rtol" in case else 0.5) + 1e3 * max(eps_w, 2.2e-16) * len(T) * case["tol"] / min(at, case["tol"])
     ratio = err / (case["tol"] * kappa(t0, tf))
     if err > bound:
         r.v("C05/accuracy/%s" % name, "error against the exact solution is bounded by a modest constant times (atol + rtol|y|) times the problem's amplification", case,
@@ -184,7 +185,8 @@ def accuracy_case(case):
                     break
             else:
                 dT = abs(float(T[k + 1] - T[k]))
-                if dT > abs(hs[0]) * (1 + 1e-12):
+                # (dT is a difference of two recorded, i.e. rounded, times: two units in the last place of the larger one)
+                if dT > abs(hs[0]) * (1 + max(1e-12, 8 * eps_w)) + 2 * eps_w * max(abs(float(T[k])), abs(float(T[k + 1]))):
                     r.v("C05/accepted-longer/%s" % name, "the accepted step is not longer than the request", dict(case, step=k), observed=dict(dT=dT, request=hs[0]), expected="<=")
                     break
                 continue
@@ -335,6 +337,18 @@ def run(ctx):
                     if ctx.quick and m in ("RadauIIA19", "LobattoIIIC4") and prob == "damped":
                         continue
                     cases.append(dict(section="acc", method=m, problem=prob, span=[t0, tf], tol=rt, rtol=rt, atol=at, amp=amp, dt0=0.1))
+    # other precisions (the controller's constants and the retry protocol must not depend on the width of the float)
+    for m in ("RK45CKSolver", "DOPRI45", "RK8713MSolver", "RadauIIA5", "RICH:RK4Solver:3"):
+        for prob in ("rotation", "logistic"):
+            for (t0, tf) in ((0.0, 2.0), (2.0, 0.0)):
+                for dn, tl in (("float32", (1e-3, 1e-4)), ("longdouble", (1e-9, 1e-12))):
+                    for tol in tl:
+                        if m in ("RICH:RK4Solver:3", "RadauIIA5") and tol < 1e-9:
+                            continue
+                        for dt0 in (1e-2, 5.0):
+                            if ctx.quick and m in ("RadauIIA5", "RICH:RK4Solver:3") and (prob != "rotation" or dt0 != 5.0):
+                                continue
+                            cases.append(dict(section="acc", method=m, problem=prob, span=[t0, tf], tol=tol, dt0=dt0, dtype=dn))
     # components of very different size in one state (decoupled, judged per component)
     # (explicit pairs and a Richardson wrapper of an explicit base: their only error source is the local truncation error, which the controller weighs per
     #  component.  Implicit pairs also solve their stage equations to a NORM-wise tolerance, 0.5*max(atol + rtol*|y|_inf) - all C02 grants them - so for them
